@@ -17,7 +17,7 @@
    interleavings).  That statement is checked by schedule search on model and implementation
    (see the check's evidence), which is how the defect repaired by bbf0063 was found. *)
 From Coq Require Import List Arith NArith ZArith Bool.
-From EV Require Import QConc QConcProofs QConcWait.
+From EV Require Import QConc QConcProofs QConcWait QConcWake.
 From EV.gen Require GenQ GenQConc.
 Import ListNotations.
 
@@ -94,3 +94,50 @@ Example C07_p13_schedule_now_completes :
   existsb (fun a => match a with CDeadlock _ _ => true | _ => false end) tr = false /\
   existsb (fun a => match a with CDone 0 => true | _ => false end) tr = true.
 Proof. exact p13_schedule_now_completes. Qed.
+
+(* ---------- first clause: no wake-up is lost (QConcWake.v) ---------- *)
+(* every configuration reachable under ANY set of thread programs and ANY schedule satisfies the wake-up invariant
+   (KInv: the invariant J over shared state and thread statuses, and each thread's weakest-precondition assertion);
+   side condition: no block of local code was cut short by the fuel of QConc.advance (decidable: stopped_alongb) *)
+Theorem C07_wake_invariant_every_schedule : forall progs schedule n,
+  stopped_along n (mkCfg sh0 (start_threads progs) schedule false) ->
+  KInv (run_sched n (mkCfg sh0 (start_threads progs) schedule false)).
+Proof. exact wake_invariant_every_schedule. Qed.
+Print Assumptions C07_wake_invariant_every_schedule.
+
+(* nobody can run, a thread is blocked in wait(), events are pending, notification is enabled, and the program did not
+   destroy a DisableQueueNotify it had not constructed  ==>  some thread that was released from wait / waitFor(true)
+   has not since found the queue empty or taken all of it (a woken consumer did not drain the queue) *)
+Theorem C07_no_lost_wakeup : forall cfg,
+  KInv cfg ->
+  (forall t, th_enabled cfg t = false) ->
+  (exists th, In th (ths cfg) /\ status th = TParked false) ->
+  ql (shs cfg) <> [] ->
+  cnc (shs cfg) = 0%Z ->
+  g_under (shs cfg) = false ->
+  g_awake (shs cfg) <> [].
+Proof. exact no_lost_wakeup. Qed.
+Print Assumptions C07_no_lost_wakeup.
+
+Corollary C07_no_waiter_left_behind : forall cfg,
+  KInv cfg -> (forall t, th_enabled cfg t = false) -> g_under (shs cfg) = false -> g_awake (shs cfg) = [] ->
+  ql (shs cfg) <> [] -> cnc (shs cfg) = 0%Z ->
+  forall th, In th (ths cfg) -> status th <> TParked false.
+Proof. exact no_waiter_left_behind. Qed.
+Print Assumptions C07_no_waiter_left_behind.
+
+(* every call of the API, as transcribed from the header that is there now (tie A: decrement under the mutex, notify
+   after the put-back), meets its per-thread obligations: whatever it owes it discharges, it ends holding no mutex *)
+Theorem C07_every_call_discharges_what_it_owes : forall t c sh,
+  oqm sh <> Some t -> ofm sh <> Some t -> wkl t (code_of c) (Post t) sh lo0.
+Proof. exact all_calls_wk. Qed.
+Print Assumptions C07_every_call_discharges_what_it_owes.
+
+(* the hypotheses are met by actual runs, and the disjunct "a woken consumer did not drain" is needed *)
+Example C07_undrained_consumer_is_named :
+  stopped_alongb 60 (mkCfg sh0 (start_threads [[AWait]; [AWait]; [AEnqueue 1 11%Z]]) [0; 0; 0; 0; 0; 1; 1; 1; 1; 1; 2; 2; 2; 2; 2; 2; 2; 2; 0; 0; 0; 0] false) = true /\
+  forallb (fun t => negb (th_enabled undrained_cfg t)) [0; 1; 2] = true /\
+  existsb (fun th => match status th with TParked false => true | _ => false end) (ths undrained_cfg) = true /\
+  length (ql (shs undrained_cfg)) = 1 /\ cnc (shs undrained_cfg) = 0%Z /\ g_under (shs undrained_cfg) = false /\
+  g_awake (shs undrained_cfg) = [0].
+Proof. exact undrained_consumer_is_named. Qed.
